@@ -28,7 +28,7 @@ def run(run, args):
     rc, msg = gen_table()
     if rc != 0:
         violation(run, {"broken": "translator cannot read table.rs", "detail": msg}, nofail=True)
-    source_tie(run, ("espec",))
+    source_tie(run, ("espec", "element"))
     rc, out, _ = make(["model/ESpecCheck.vo"])
     if rc != 0:
         violation(run, {"broken": "model files do not build", "detail": out[-3000:]}, nofail=True)
